@@ -63,7 +63,7 @@ var namedVarint = []string{"NInt", "NInt8", "NInt32", "NInt64", "NUint", "NUint1
 var namedFloat = []string{"NFloat64", "NFloat32"}
 var namedLen = []string{"NString", "NBytes", "NInts"} // length-delimited wire type
 var namedStructs = []string{"Leaf", "Mid", "PairIS", "Embeds", "EmbedsPtr", "WithJSON"}
-var namedRecursive = []string{"Tree", "List", "MutA", "MutB", "Cyc1", "Cyc2", "Cyc3", "MapRec", "PtrSliceRec", "PairLeafTree"}
+var namedRecursive = []string{"Tree", "List", "MutA", "MutB", "Cyc1", "Cyc2", "Cyc3", "MapRec", "PtrSliceRec", "PairLeafTree", "TreeP", "TagMutA", "TagMutB"}
 
 func pick[X any](t *rapid.T, label string, xs []X) X {
 	return xs[rapid.IntRange(0, len(xs)-1).Draw(t, label)]
@@ -339,8 +339,8 @@ func (g *tgen) structT(depth int) *TSpec {
 	if n == 0 && rapid.IntRange(0, 3).Draw(g.t, "empty") != 0 {
 		n = 1
 	}
-	wide := false
-	if g.nodes < 12 && rapid.IntRange(0, 24).Draw(g.t, "wide") == 0 {
+	wide, numericWide := false, false
+	if g.nodes < 25 && rapid.IntRange(0, 24).Draw(g.t, "wide") == 0 {
 		// occasionally a wide struct (code paths that depend on the number of fields)
 		n = rapid.IntRange(9, 24).Draw(g.t, "nwide")
 		if rapid.IntRange(0, 7).Draw(g.t, "vwide") == 0 {
@@ -348,13 +348,16 @@ func (g *tgen) structT(depth int) *TSpec {
 			n = pick(g.t, "nvwide", []int{32, 33, 63, 64, 65, 70, 129, 257})
 		}
 		wide = true
+		numericWide = rapid.IntRange(0, 2).Draw(g.t, "numwide") == 0 // only numbers: bodies of known maximum size
 	}
 	idx := g.indexes(n)
 	fs := make([]Field, 0, n+2)
 	for i := 0; i < n; i++ {
 		var ft *TSpec
 		var opt string
-		if wide && i >= 4 {
+		if wide && numericWide {
+			ft = T(pick(g.t, "numk", []Kind{KUint64, KInt64, KUint64, KFloat64, KUint32, KBool, KInt}))
+		} else if wide && i >= 4 {
 			ft = g.leaf(true) // keep wide structs cheap: mostly leaves
 		} else {
 			ft, opt = g.fieldType(depth)
